@@ -5,6 +5,8 @@ from . import c05
 
 
 def run(check, pool, Task):
+    from . import validate
+    validate.apply(check, ['rtree'])
     thorough = check.tier == 'thorough'
     cap = 1800 if thorough else 600
     check.bounds.update({'frames': 'left x right rows <= 3x2 (3x3 thorough), incl. empty frames, rows with NaN bounds on either side, every candidate order for <= 2 left rows',
